@@ -248,3 +248,75 @@ func VerifH_C12_DroppedFiles() {
 	}
 	rt.Cover(dropped >= 1, "a-segment-dropped")
 }
+
+// VerifH_C12_OpenedSegmentsClosed: a persist round (real persistSnapshotDirect, prepareBoltSnapshot,
+// introducePersist through the real introducerLoop) over two in-memory segments while a batch
+// arrives between the writing of a segment file and the persist introduction (the batch may obsolete
+// a whole segment, which then never enters the root). Afterwards every segment file that was opened
+// is either held by the current root or has been closed again: no open file is left behind that
+// Close would not reach.
+func VerifH_C12_OpenedSegmentsClosed() {
+	dir := verifTempDir()
+	defer os.RemoveAll(dir)
+	s := verifStartDisk(dir, false)
+	verifTrackOpened, verifOpenedSegs = true, nil
+	defer func() { verifTrackOpened, verifOpenedSegs = false, nil }()
+	s.asyncTasks.Add(1)
+	go s.introducerLoop()
+	mk := func(ids ...byte) *verifCUSeg { return &verifCUSeg{verifSeg{n: len(ids), idOf: ids, refs: 1}} }
+	rt.Assert(s.prepareSegment(mk('a'), []string{"a"}, nil, nil) == nil, "batch 1")
+	rt.Assert(s.prepareSegment(mk('b'), []string{"b"}, nil, nil) == nil, "batch 2")
+	when := rt.Choice("batch_arrives_after_file", 3) // 0: no batch during the round
+	seen := 0
+	verifCrashHook = func(what string) {
+		seen++
+		if seen != when {
+			return
+		}
+		// a batch over symbolic ids: upsert and/or delete a, b
+		var ids []string
+		var up []byte
+		for x := 0; x < 2; x++ {
+			switch rt.Choice("op", 3) {
+			case 1:
+				ids = append(ids, string([]byte{'a' + byte(x)}))
+				up = append(up, 'a'+byte(x))
+			case 2:
+				ids = append(ids, string([]byte{'a' + byte(x)}))
+			}
+		}
+		var seg segment.Segment
+		if len(up) > 0 {
+			seg = mk(up...)
+		}
+		rt.Assert(s.prepareSegment(seg, ids, nil, nil) == nil, "batch during the persist round")
+	}
+	defer func() { verifCrashHook = nil }()
+	snap := s.currentSnapshot()
+	rt.Assert(len(snap.segment) == 2, "two in-memory segments to persist")
+	rt.Assert(s.persistSnapshotDirect(snap) == nil, "persist round succeeds")
+	_ = snap.DecRef()
+	verifCrashHook = nil
+	cur := s.currentSnapshot()
+	inRoot := 0
+	for _, ps := range verifOpenedSegs {
+		held := false
+		for _, ss := range cur.segment {
+			if ss.segment == segment.Segment(ps) {
+				held = true
+			}
+		}
+		if held {
+			inRoot++
+			rt.Assert(ps.closed == 0, "a segment file held by the current root stays open")
+		} else {
+			rt.Assert(ps.closed >= 1, "a segment file that was opened but is not part of the root has been closed again")
+		}
+	}
+	rt.Assert(len(verifOpenedSegs) == 2, "both new segment files were opened")
+	_ = cur.DecRef()
+	close(s.closeCh)
+	s.asyncTasks.Wait()
+	_ = s.rootBolt.Close()
+	rt.Cover(rt.And(when >= 1, inRoot <= 1), "a-persisted-segment-was-obsoleted-meanwhile")
+}
